@@ -4,7 +4,7 @@
    execution are arbitrary ([env]), and so are configuration, state and input. *)
 From PM.theories Require Import Base Ladder Frontends CorrFrontends.
 From PM.Generated Require Import GenFrontends.
-From PM.proofs Require Import Frontends_proofs.
+From PM.proofs Require Import Frontends_proofs FrontendsC17_proofs.
 Open Scope list_scope.
 Open Scope Z_scope.
 
